@@ -81,8 +81,14 @@ def gen_case(rng, i, multi_every=6, share_every=4, shipped_every=3, n_samples=1,
             late = [{"k": "quantize"}, {"k": "add", "regex": ".*", "operation": rng.choice(ops), "cfg": None, "alg": "no_quantize"}]
     elif r < 0.11:
         late = [{"k": "policy", "file": "example_config_policy.json"}]   # a shipped custom policy replaces the default one
-        if rng.random() < 0.5:
+        if rng.random() < 0.6:
             late = [{"k": "quantize"}] + late    # ... after the object has already resolved its rules once under the default policy
+            if rng.random() < 0.7:
+                # a '*' rule whose support is decided at resolution time and differs between the two policies (the example policy knows
+                # no weight-only / float16 entries)
+                cfg = rng.choice([pl.UNIFORM["wo8"], pl.UNIFORM["wo4"], pl.UNIFORM["wo8a"], pl.UNIFORM["drq4"], pl.UNIFORM["drq4c"]])
+                cmds = [{"k": "add", "regex": ".*", "operation": "*", "cfg": cfg, "alg": "min_max_uniform_quantize"}]
+                late[-1] = {"k": "policy", "file": "<strict>"}   # the default policy without its weight-only and 4-bit dynamic-range entries
     elif r < 0.19:
         # calibrate once, then explore recipes with the same calibration result: the weight granularity (and width) configured when
         # quantize() runs differs from the one in force while calibrating
@@ -136,7 +142,9 @@ def run_case(ctx, drv, case, graph_corr=True):
         elif c.get("k") == "policy":
             import os as _os
             from ai_edge_quantizer import quantizer as _qm
-            q.load_config_policy(_os.path.join(_os.path.dirname(_qm.__file__), "policies", c["file"]))
+            if c["file"] == "<strict>":
+                c = dict(c, file=orc.strict_policy_file())
+            q.load_config_policy(c["file"] if _os.path.isabs(c["file"]) else _os.path.join(_os.path.dirname(_qm.__file__), "policies", c["file"]))
             orc.reset_fresh()
             orc.ACTIVE_POLICY[0] = c["file"]
             res["policy"] = c["file"]
